@@ -358,6 +358,8 @@ class Gen:
         self.no_growth = self.loop_depth > 0 or scope.in_routine
         if typ == 'str':
             e, cls = self.str_atom(scope), 'E'
+            if self.chance(0.2):
+                e = A.string(name)              # the text of a value has nothing to do with the names of variables
         else:
             cls = 'E' if scope.in_routine else self.pick(['E', 'E', 'A'])
             e = self.num_expr(scope, cls, 2)
